@@ -64,7 +64,8 @@ def _valid_cases(draw):
 
 
 CONFLICTS = ["static_static", "tree_file", "nested_trees", "out_out", "out_static", "glob_output",
-             "duplicate_step", "vol_out", "duplicate_tree"]
+             "duplicate_step", "vol_out", "duplicate_tree", "glob_two_products", "out_out_two",
+             "static_static_two", "tree_two_files"]
 
 
 @st.composite
@@ -106,6 +107,28 @@ def _conflict_cases(draw):
     elif kind == "duplicate_tree":
         a.append(["static_extra", ["cf/deep/"]])
         b.append(["static_extra", ["cf/deep/"]])
+    elif kind == "glob_two_products":
+        # two products of one step match the pattern, the volatile one sorts first; both exist
+        # on disk already, so the pattern is refused in either order and must name the same path
+        first, second = draw(st.sampled_from([("clash/a.out", "clash/z.out"),
+                                               ("clash/z.out", "clash/a.out")]))
+        spec["sources"][first] = "left over 1\n"
+        spec["sources"][second] = "left over 2\n"
+        step("ca", "ca.py", ".", [first], [second])
+        a.append(["step", "ca"])
+        b.append(["glob_only", "clash/*.out"])
+    elif kind == "out_out_two":
+        step("ca", "ca.py", ".", ["clash/m.out", "clash/b.out"])
+        step("cb", "sub/cb.py", "sub", ["clash/b.out", "clash/m.out", "clash/q.out"])
+        a.append(["step", "ca"])
+        b.append(["step", "cb"])
+    elif kind == "static_static_two":
+        a.append(["static_extra", ["cf/deep/c1.txt", "cf/c0.txt"]])
+        b.append(["static_extra", ["cf/c0.txt", "cf/deep/c1.txt"]])
+    elif kind == "tree_two_files":
+        spec["sources"]["cf/deep/c2.txt"] = "conflict source 2\n"
+        a.append(["static_extra", ["cf/deep/"]])
+        b.append(["static_extra", ["cf/deep/c2.txt", "cf/deep/c1.txt"]])
     elif kind == "out_out":
         step("ca", "ca.py", ".", ["clash/x.out"])
         step("cb", "sub/cb.py", "sub", ["clash/x.out"])
